@@ -253,6 +253,7 @@ class Model:
     def on_iter(self, r):
         self.check_reload()
         self.close_iter()
+        self.check_starved()
         self.W = r['t']
         self.iter = r['n']
         self.iter_spawns = {}
@@ -432,6 +433,27 @@ class Model:
             c['open_at_accept'] = sum(1 for x in self.conn.values()
                                       if x['accepted'] and not x['closed'])
             c['accepted'] = True
+            c['accept_iter'] = self.iter
+
+    def on_send(self, r):
+        c = self.conn.get(r['c'])
+        if c:
+            c['sent'] = c.get('sent', 0) + r.get('n', 0)
+            c['send_iter'] = self.iter
+
+    def check_starved(self):
+        """bounded liveness: a connection the daemon accepted is read in the
+        wake-up after its bytes arrived (level-triggered readiness).  One
+        that has not been looked at three wake-ups later was lost."""
+        for cid, c in self.conn.items():
+            if c['accepted'] and not c['closed'] and c.get('sent', 0) > 0 and not c.get('got_recv') \
+                    and not c['buf'] and not c.get('starved') \
+                    and self.iter - max(c.get('accept_iter', 0), c.get('send_iter', 0)) >= 3:
+                c['starved'] = True
+                self.v('R-SERVE', 'starved',
+                       'connection %d of peer %s was accepted at wake-up %d, %d bytes were sent by wake-up %d; at wake-up %d '
+                       'the daemon has neither read nor closed it'
+                       % (cid, c['peer'], c.get('accept_iter', 0), c.get('sent', 0), c.get('send_iter', 0), self.iter))
 
     def on_pclose(self, r):
         c = self.conn.get(r['c'])
